@@ -44,6 +44,17 @@ SEED = {
  "C18b": ("C18", "EmbeddedFS::create_dir answers DirectoryExists for existing directories instead of NotSupported", "create_dir / create_dir_all on an existing embedded directory: create_dir_all reports success on a read-only filesystem", "embedded-fs"),
  "C19b": ("C19", "PhysicalFS sets timestamps through a handle opened for writing", "set_*_time on a read-only file or on a directory of a PhysicalFS", ""),
  "C20b": ("C20", "VfsPath::is_dir conflates 'lookup failed' with 'not a directory' (metadata().map(..).unwrap_or(false))", "an I/O failure of a layer's metadata call while an overlay merges a listing: the layer's entries silently vanish", ""),
+ # third round (ten properties, aimed at the adapters and the concurrency checks)
+ "C03c": ("C03", "OverlayFS::read_dir subtracts markers with trim_end_matches(\"_wo\"): the bookkeeping sub-directories hide the directories they belong to", "any depth-2 deletion (remove_file /p/d/f): /p vanishes from the root listing; remove_dir /p then succeeds and orphans /p/d", ""),
+ "C05c": ("C05", "MemoryFS gains a native move_file (rename of the map entry) that never checks that the source is a file", "move_file on a directory with children: the entry moves, the children stay behind without a parent", ""),
+ "C08c": ("C08", "OverlayFS implements move_file by resolving the source with read_path and moving it into the write layer", "move_file of a file that exists only in a lower layer: it is removed from the lower layer", ""),
+ "C09c": ("C09", "OverlayFS::ensure_has_parent copies the parent up with create_dir instead of create_dir_all", "create_file / create_dir / append_file below a lower-only directory nested two or more levels deep", ""),
+ "C10c": ("C10", "OverlayFS::remove_dir deletes the marker sub-directory of the removed directory", "remove an entry of a lower-layer directory, then the directory: the entry is back; a re-created directory lists the old entries", ""),
+ "C11c": ("C11", "the 'destination exists' guard of move_file/copy_dir/move_dir is factored into a helper that looks the destination path up in the SOURCE's filesystem", "transfers between two instances: an occupied destination is overwritten, a free one with the same path as the source is refused", ""),
+ "C12c": ("C12", "join's trailing-slash check moved into the relative branch: absolute arguments ending in '/' are accepted", "join(\"/foo/\"), join(\"//\") return Ok instead of InvalidPath", ""),
+ "C16c": ("C16", "MemoryFS::read_dir calls self.exists() while holding the read guard (the read lock is taken twice)", "a writer queued between the two acquisitions: both threads, and every later call, hang", "verif-hooks (deterministic demo; the stress demo needs none)"),
+ "C17c": ("C17", "OverlayFS::create_dir clears the deletion marker BEFORE creating the directory in the write layer", "two threads create_dir_all on or below a directory that was removed through the overlay: both see the marker, the second remove_file fails FileNotFound", "verif-hooks (deterministic demos; the stress demo needs none)"),
+ "C20c": ("C20", "OverlayFS::read_dir merges `if let Ok(entries) = layer_path.read_dir()`: a failing layer listing is skipped", "an I/O failure of a layer's read_dir: partial listings, partial copy_dir, move_dir loses data, remove_dir of a directory non-empty only in the failing layer succeeds", ""),
 }
 matrix = {}
 mp = os.path.join(ROOT, "seeded", "matrix.txt")
